@@ -18,12 +18,22 @@ def rounds(ctx):
              backends={'ram': 1.0, 'sqlmem': 0.3}, relevant={'SuggestTrials', 'CheckEarlyStopping'}),
         dict(name='faults_always_d4', consts=speca.constants(MaxDepth=4, Recycle='always', **dict(base, Clients={'w1'})), expect=EXPECT,
              backends={'ram': 1.0, 'sqlmem': 0.3}, relevant={'SuggestTrials', 'CheckEarlyStopping'}),
+        # the early-stopping algorithm decides about other trials as well, or not about the requested one at all
+        dict(name='es_other_trials_d4', consts=speca.constants(MaxDepth=4, Recycle='always', EsAlso=True, MaxId=2, MaxCount=2, MaxDeliver=2, Params={'p1'},
+                                                              Meas={'m1'}, Clients={'w1'}, Kinds={'CreateStudy', 'SuggestTrials', 'CheckEarlyStopping', 'StopTrial'}),
+             backends={'ram': 1.0, 'sqlmem': 1.0}, relevant={'CheckEarlyStopping'}),
     ]
   return [
       dict(name='faults_never_d5', consts=speca.constants(MaxDepth=5, Recycle='never', **dict(base, Kinds=FK - {'CreateTrial'})), expect=EXPECT,
            backends={'ram': 1.0, 'sqlmem': 0.3}, relevant={'SuggestTrials', 'CheckEarlyStopping'}),
       dict(name='faults_always_d5', consts=speca.constants(MaxDepth=5, Recycle='always', **dict(base, Clients={'w1'}, Kinds=FK - {'CreateTrial'})),
            expect=EXPECT, backends={'ram': 1.0, 'sqlmem': 0.3}, relevant={'SuggestTrials', 'CheckEarlyStopping'}),
+      dict(name='es_other_trials_d5', consts=speca.constants(MaxDepth=5, Recycle='always', EsAlso=True, MaxId=2, MaxCount=2, MaxDeliver=2, Params={'p1'},
+                                                            Meas={'m1'}, Clients={'w1'}, Kinds={'CreateStudy', 'SuggestTrials', 'CheckEarlyStopping', 'StopTrial', 'CompleteTrial'}),
+           backends={'ram': 1.0, 'sqlmem': 1.0}, relevant={'CheckEarlyStopping'}),
+      dict(name='es_other_trials_never_d4', consts=speca.constants(MaxDepth=4, Recycle='never', EsAlso=True, MaxId=2, MaxCount=2, MaxDeliver=2, Params={'p1'},
+                                                                  Meas={'m1'}, Clients={'w1'}, Kinds={'CreateStudy', 'SuggestTrials', 'CheckEarlyStopping', 'StopTrial'}),
+           backends={'ram': 1.0, 'sqlmem': 1.0}, relevant={'CheckEarlyStopping'}),
       dict(name='faults_never_d4_wide', consts=speca.constants(MaxDepth=4, Recycle='never', **dict(base, MaxId=4, MaxCount=3, MaxDeliver=4, Params={'p1', 'p2'})),
            expect=EXPECT, backends={'ram': 1.0, 'sqlmem': 1.0, 'sqlfile': 0.03}, relevant={'SuggestTrials', 'CheckEarlyStopping'}),
   ]
@@ -33,7 +43,7 @@ def walks(ctx):
   conf = {'Studies': ['s1'], 'Clients': ['w1', 'w2'], 'MaxId': 12, 'Cells': ['c1'], 'Recycle': 'always'}
   kinds = ['SuggestTrials'] * 4 + ['CheckEarlyStopping'] * 3 + ['CompleteTrial', 'CompleteTrial', 'StopTrial', 'GetOperation', 'CreateTrial']
   n = 480 if ctx.thorough else 120
-  return [dict(name='faulty_algorithm', conf=conf, n=n, length=40, kinds=kinds, opts={'MaxCount': 3}, backends=['ram', 'sqlmem']),
+  return [dict(name='faulty_algorithm', conf=conf, n=n, length=40, kinds=kinds, opts={'MaxCount': 3, 'EsAlso': True}, backends=['ram', 'sqlmem']),
           dict(name='faulty_algorithm_cached_es', conf=dict(conf, Recycle='never'), n=n // 2, length=40, kinds=kinds, opts={'MaxCount': 3},
                backends=['ram'])]
 
